@@ -46,6 +46,25 @@ def stub_number_formatting():
 
     opcode_intercept.FormatStashingValue.__format__ = _stash_format
 
+    # builtin callable(): CrossHair realises a symbolic argument handed to an unmodelled C builtin; symbolic
+    # int/bool/float/str/bytes/containers are never callable, so answer without realising.
+    import crosshair.core_and_libs  # noqa: F401  (registers the stock patches we override below)
+    from crosshair import core as _core
+    from crosshair.core import python_type
+    from crosshair.util import CrossHairValue
+
+    orig_callable = callable
+
+    def _callable(x):
+        with NoTracing():
+            if isinstance(x, CrossHairValue):
+                t = python_type(x)
+                if isinstance(t, type) and issubclass(t, (int, float, str, bytes, bytearray, list, tuple, dict, set, frozenset, type(None))):
+                    return False
+            return orig_callable(x)
+
+    _core._PATCH_REGISTRATIONS[callable] = _callable
+
 
 def run(module, fn_name, lo, hi, cond_timeout, path_timeout, mode):
     os.environ["VERIF_LO"] = str(lo)
